@@ -62,6 +62,14 @@ def gen_change(rng):
         n = len(sig) if rng.random() < 0.75 else rng.randint(0, len(sig))  # early exit
         for (i, c) in sig[:n]:
             ops.append(["N", i, c])
+        if rng.random() < 0.25:     # a stable tail after the change: the label keeps consulting a (possibly shorter) prefix
+            k = rng.randint(1, len(sig)); P = 1
+            for _, c in sig[:k]:
+                P *= c
+            for _ in range(min(2 * P + 1, 40)):
+                ops.append(["B", pc])
+                for (i, c) in sig[:k]:
+                    ops.append(["N", i, c])
     return {"kind": "change", "ops": ops}
 
 
@@ -96,12 +104,13 @@ def gen_runloop(rng):
             sg = sig
             if not stable and rng.random() < 0.3:
                 sg = [[i, rng.randint(1, 4)] for i, _ in sig][:rng.randint(1, depth)]
-            script.append({"sig": sg, "action": "abort" if rng.random() < 0.6 else "goto:" + cur})
+            r = rng.random()
+            script.append({"sig": sg, "action": "abort" if r < 0.45 else "refuse:goto:" + rng.choice([l for l in labels if l != cur]) if r < 0.7 else "goto:" + cur})
         nxt = rng.choice([l for l in labels if l != cur])
         script.append({"sig": sig, "action": "goto:" + nxt})
         cur = nxt
     script.append({"sig": [], "action": "done"})
-    return {"kind": "runloop", "mode": "run", "start": start, "labels": labels, "script": script}
+    return {"kind": "runloop", "mode": "run", "start": start, "labels": labels, "script": script, "nowrap": rng.random() < 0.5}
 
 
 def oracle_runloop(case, log, err):
@@ -114,7 +123,16 @@ def oracle_runloop(case, log, err):
     attempts = []   # (label, sig, values)
     i = 0
     nB = sum(1 for e in log if e[0] == "B"); nA = sum(1 for e in log if e[0] == "A")
-    if nB != nA:
+    if case.get("nowrap"):
+        # the context's own counter, unwrapped: Begin calls are not observable; assume one per attempt (the model
+        # comparison and the window check then test exactly that assumption)
+        log2 = []
+        for e in log:
+            if e[0] == "A":
+                log2.append(["B", e[1]])
+            log2.append(e)
+        log[:] = log2
+    elif nB != nA:
         fails.append(("begin-not-once-per-attempt", "%d BeginCriticalSection calls for %d attempts" % (nB, nA)))
     for j, e in enumerate(log):
         if e[0] == "A":
@@ -129,24 +147,8 @@ def oracle_runloop(case, log, err):
             cur[1].append((e[1], e[2])); cur[2].append(e[3])
             if not (0 <= e[3] < e[2]):
                 fails.append(("out-of-range", "choice %s returned %d for bound %d" % (e[1], e[3], e[2])))
-    # runs of consecutive attempts with the same label
-    k = 0
-    while k < len(attempts):
-        m = k
-        while m + 1 < len(attempts) and attempts[m + 1][0] == attempts[k][0]:
-            m += 1
-        run = attempts[k:m + 1]
-        sigs = {tuple(a[1]) for a in run}
-        if len(sigs) == 1 and run[0][1]:
-            P = 1
-            for _, c in run[0][1]:
-                P *= c
-            tup = [tuple(a[2]) for a in run]
-            for a in range(0, len(tup) - P + 1):
-                if len(set(tup[a:a + P])) != P:
-                    fails.append(("window-repeats", "label %s: attempts %d..%d repeat a combination: %s" % (run[0][0], a, a + P - 1, tup[a:a + P])))
-                    break
-        k = m + 1
+    if not fails:
+        fails += window_failures([(a[0], a[1], a[2]) for a in attempts])
     return fails
 
 
@@ -180,6 +182,59 @@ def to_coq(case, outs):
     return "(%s, %s)" % (vlib.coq_list(ops), vlib.coq_list([vlib.coq_Z(o) for o in outs]))
 
 
+def window_failures(attempts):
+    """attempts: list of (pc, [(id, ceiling)...], [values...]) in order.  Simulates only the SHAPE of the stack as the
+    property's hypotheses describe it (label change clears; a consulted position whose id/bound differs drops that digit and
+    everything deeper; consulting one past the end pushes) - theorems robust_change_truncates / attempt_prefix - and, for every
+    maximal run of consecutive attempts of one label consulting the same choice points, starting at an attempt that leaves the
+    stack exactly as long as what it consulted, demands that every window of prod(bounds) attempts is repetition-free
+    (theorem exhaustive_after_change)."""
+    fails = []
+    shape, pc = [], None
+    run = []          # (sig, values) of the current run
+    def close(run):
+        if len(run) < 2:
+            return
+        sig = run[0][0]
+        P = 1
+        for _, c in sig:
+            P *= c
+        tup = [tuple(v) for _, v in run]
+        for a in range(0, len(tup) - P + 1):
+            if len(set(tup[a:a + P])) != P:
+                fails.append(("window-repeats", "attempts consulting %s: window %d..%d repeats a combination: %s" % (list(sig), a, a + P - 1, tup[a:a + P])))
+                return
+    for (apc, sig, vals) in attempts:
+        if apc != pc:
+            shape, pc = [], apc
+            close(run); run = []
+        complete = len(vals) == len(sig) and all(isinstance(v, int) and v >= 0 for v in vals)
+        for i, sc in enumerate(sig):
+            if i < len(shape) and shape[i] != sc:
+                shape = shape[:i]
+            if i == len(shape):
+                shape.append(sc)
+        exact = len(shape) == len(sig) and len(sig) > 0 and complete
+        sig_t = tuple(sig)
+        if run and run[0][0] == sig_t and exact:
+            run.append((sig_t, vals))
+        else:
+            close(run)
+            run = [(sig_t, vals)] if exact else []
+    close(run)
+    return fails[:1]
+
+
+def scripted_attempts(ops, outs):
+    atts, cur = [], None
+    for op, o in zip(ops, outs):
+        if op[0] == "B":
+            cur = (op[1], [], []); atts.append(cur)
+        elif cur is not None:
+            cur[1].append((op[1], op[2])); cur[2].append(o)
+    return atts
+
+
 def oracle(case, outs):
     """implementation-side check of the property itself; returns list of (signature, what)"""
     fails = []
@@ -194,20 +249,8 @@ def oracle(case, outs):
                     fails.append(("panic-on-positive-ceiling", "NextFairnessCounter panicked at op %d" % i)); break
                 if not (0 <= o < op[2]):
                     fails.append(("out-of-range", "op %d returned %d for ceiling %d" % (i, o, op[2]))); break
-    if case.get("kind") == "stable":
-        sig = case["sig"]; n = len(sig); P = 1
-        for _, c in sig:
-            P *= c
-        tuples = []
-        idx = 0
-        while idx < len(ops):
-            assert ops[idx][0] == "B"
-            tuples.append(tuple(outs[idx + 1: idx + 1 + n])); idx += n + 1
-        for a in range(0, len(tuples) - P + 1):
-            w = tuples[a:a + P]
-            if len(set(w)) != P:
-                fails.append(("window-repeats", "attempts %d..%d of signature %s repeat a combination: %s" % (a, a + P - 1, sig, w)))
-                break
+    if wellformed and not fails and ops and ops[0][0] == "B":
+        fails += window_failures(scripted_attempts(ops, outs))
     return fails
 
 
@@ -242,7 +285,7 @@ def run(ctx):
             cases.append(gen_stable(rng) if r < 0.35 else gen_change(rng) if r < 0.7 else gen_runloop(rng) if r < 0.9 else gen_malformed(rng))
     for i, c in enumerate(cases):
         c["id"] = i
-    rc, res, err = vlib.run_jsonl("c10", [{k: v for k, v in c.items() if k in ("id", "ops", "mode", "start", "labels", "script")} for c in cases])
+    rc, res, err = vlib.run_jsonl("c10", [{k: v for k, v in c.items() if k in ("id", "ops", "mode", "start", "labels", "script", "nowrap")} for c in cases])
     byid = {r["id"]: r for r in res}
     if rc != 0 or len(byid) != len(cases):
         ctx.breaks.append({"what": "harness c10 failed (rc=%d, %d/%d results)" % (rc, len(byid), len(cases)), "detail": err[-2000:]})
@@ -296,7 +339,7 @@ MANIFEST = {
     "technique": "Coq proof (mixed-radix counter bijection, invariant induction over all call sequences) + differential correspondence model vs fairness.go",
     "text": ("Theorems in coq/Properties/C10.v, closed under the global context: in_range (every call sequence with positive bounds, "
              "any ids/bounds/label changes, any oracle, from any state satisfying the representation invariant returns values below the bound and never panics), "
-             "robust_change_truncates, exhaustive (every window of prod(bounds) consecutive attempts enumerates every combination exactly once, any depth/bounds/start), "
+             "robust_change_truncates, attempt_prefix, exhaustive_after_change, exhaustive (every window of prod(bounds) consecutive attempts enumerates every combination exactly once, any depth/bounds/start), "
              "fresh_entry, bounded_wait. The model is tied to distsys/fairness.go by running both on the same generated call sequences on every run; "
              "an implementation-side oracle checks range and window-distinctness directly on the Go outputs."),
     "level_note": ("Trusted: Coq kernel; the hand-written model (tie = differential testing, so a code change is caught only if a generated sequence reaches it: "
